@@ -44,7 +44,7 @@ def run(ctx):
         cases += codec.emitted_cases(r["out"])
     codec.replay_cases(ctx, "sam-replay", cases, "sam text", lambda c: "text=%s" % bytes(c["text"]))
     vlib.log("  [R] %d model texts (record lines and files) read by the real ReaderHeader and Reader" % len(cases))
-    leg_T(ctx, 600 if thorough else 80)
+    leg_T(ctx, 2500 if thorough else 80)
     ctx.exhaustive = True
 
 
